@@ -320,7 +320,17 @@ fn oracle_failure(c: &FailCase, ctx: &mut Ctx) -> CaseResult {
 	});
 	ctx.nontrivial_if(n >= 3 && ((k > 0 && k < n - 1) || c.mode != FMode::Clean));
 
+	ctx.summary(serde_json::json!({ "seed": c.seed, "hops": n, "blinded_tail": nb, "failing_hop": k, "j": j, "code": format!("{:#06x}", code), "data_len": data.len(), "mode": format!("{:?}", c.mode) }));
 	let want_holds = |upto: usize| -> Vec<u32> { c.holds[..upto.min(20).min(n)].to_vec() };
+	// Attribution HMACs are truncated to 4 bytes: where hop j's HMAC is expected *not* to verify, a
+	// 2^-32 coincidence yields extra entries. Such a reading is accepted only if the independent
+	// reference decoder, fed the same bytes, arrives at the very same list.
+	let collision = |want: &Vec<u32>| -> bool {
+		let Some(attr) = wire_attr.as_ref() else { return false };
+		let rf = r::decode_failure(&rt.secrets, &wire_data);
+		let ref_holds = r::decode_attribution(attr, &rt.secrets, n, &|i| &rf.layers[i][..]);
+		d.hold_times.len() > want.len() && d.hold_times[..want.len()] == want[..] && ref_holds == d.hold_times
+	};
 	let detail = || {
 		format!(
 			"n={} k={} j={:?} nb={} code={:#06x} data_len={} mode={:?} -> scid={:?} perm={} blinded={} code={:?} data_len={:?} holds={:?}",
@@ -335,7 +345,12 @@ fn oracle_failure(c: &FailCase, ctx: &mut Ctx) -> CaseResult {
 		check!(d.failure_code.is_none() && d.failure_data.is_none(), "corrupt-decoded", "a damaged failure packet was decoded: {}", detail());
 		check!(d.short_channel_id.is_none() && !d.failed_within_blinded_path, "corrupt-attributed", "a damaged failure packet was attributed: {}", detail());
 		check!(d.payment_failed_permanently, "corrupt-not-permanent", "an unattributable failure must fail the payment: {}", detail());
-		check!(d.hold_times == want_holds(j.unwrap()), "corrupt-hold-times", "expected hold times {:?}: {}", want_holds(j.unwrap()), detail());
+		let want = want_holds(j.unwrap());
+		if d.hold_times != want && collision(&want) {
+			ctx.label("hmac4-collision");
+		} else {
+			check!(d.hold_times == want, "corrupt-hold-times", "expected hold times {:?}: {}", want, detail());
+		}
 		return Ok(());
 	}
 
@@ -367,7 +382,14 @@ fn oracle_failure(c: &FailCase, ctx: &mut Ctx) -> CaseResult {
 	let clean_holds = want_holds(if in_blinded { k } else { k + 1 });
 	match c.mode {
 		FMode::Clean => check!(d.hold_times == clean_holds, "hold-times", "expected {:?}: {}", clean_holds, detail()),
-		FMode::LegacyFrom(_) | FMode::StripAt(_) => check!(d.hold_times == want_holds(j.unwrap()), "hold-times", "expected {:?}: {}", want_holds(j.unwrap()), detail()),
+		FMode::LegacyFrom(_) | FMode::StripAt(_) => {
+			let want = want_holds(j.unwrap());
+			if d.hold_times != want && collision(&want) {
+				ctx.label("hmac4-collision");
+			} else {
+				check!(d.hold_times == want, "hold-times", "expected {:?}: {}", want, detail());
+			}
+		},
 		FMode::CorruptAttr { .. } => {
 			let l = d.hold_times.len();
 			check!(l >= j.unwrap().min(20) && l <= clean_holds.len() && d.hold_times[..] == clean_holds[..l], "hold-times", "expected a prefix of {:?} of at least {} entries: {}", clean_holds, j.unwrap().min(20), detail());
@@ -411,11 +433,51 @@ fn oracle_fulfil(c: &FulfilCase, ctx: &mut Ctx) -> CaseResult {
 	ctx.label_if(top < n, "legacy-hop");
 	ctx.label_if(n > 20, "more-than-20-hops");
 	ctx.nontrivial_if(n >= 3 && c.holds[..top.min(20)].iter().any(|h| *h != 0));
+	ctx.summary(serde_json::json!({ "seed": c.seed, "hops": n, "reporting_hops": top, "hold_times": &c.holds[..top.min(20)] }));
 	check!(got == want, "fulfil-hold-times", "n={} reporting hops={} hold times read {:?}, expected {:?}", n, top, got, want);
 	Ok(())
 }
 
+/// Every (path length, failing position) pair with a representative code of each class, clean mode.
+fn grid_cases() -> Vec<FailCase> {
+	let codes: [u16; 9] = [NODE | 2, PERM | NODE | 2, BADONION | PERM | 5, UPDATE | 7, PERM | 8, PERM | 15, 19, 23, 0x0fff];
+	let mut out = vec![];
+	for n in 1..=MAX_HOPS {
+		for k in 0..n {
+			for (ci, code) in codes.iter().enumerate() {
+				out.push(FailCase {
+					seed: 7,
+					n: n as u8,
+					blinded: 0,
+					scids: (0..MAX_HOPS as u64).map(|i| 640 * (i + 1)).collect(),
+					// smallest selector that `pick` maps onto k
+					k: ((k * 65536 + n - 1) / n) as u16,
+					code: CodeSel::Raw(*code),
+					data: DataSel::Raw(if ci % 2 == 0 { 0 } else { 12 }),
+					holds: (0..MAX_HOPS as u32).map(|i| 100 + i).collect(),
+					mode: FMode::Clean,
+				});
+			}
+		}
+	}
+	out
+}
+
 pub fn register(c: &mut Check) {
+	c.enumerate(
+		"failure-grid",
+		"all 378 (path length 1..27, failing position) pairs x 9 codes (one per flag class, final-only codes, unknown), default payload, clean return path",
+		grid_cases(),
+		true,
+		oracle_failure,
+	);
+	c.enumerate(
+		"fulfil-grid",
+		"every path length 1..27 with distinct hold times, no legacy hop",
+		(1..=MAX_HOPS as u8).map(|n| FulfilCase { seed: 9, n, holds: (0..MAX_HOPS as u32).map(|i| 1000 + i).collect(), legacy_at: None }).collect(),
+		true,
+		oracle_fulfil,
+	);
 	c.part(
 		PartSpec {
 			name: "failure",
